@@ -1,0 +1,28 @@
+"""Safe access to tree-sitter point coordinates."""
+
+from __future__ import annotations
+
+from typing import Any
+
+
+def point_row(point: Any) -> int:
+    """Return the row of a tree-sitter ``Point``.
+
+    py-tree-sitter 0.26.0 hands out a borrowed reference from ``Point.row`` and
+    ``Point.column``: every attribute read of a value above the small-int cache
+    (>= 257) drops one reference too many and eventually corrupts the
+    interpreter heap (a file with comments beyond line 257 kills the process).
+    Indexing the point returns a properly owned object.
+    """
+    try:
+        return point[0]
+    except TypeError:
+        return point.row
+
+
+def point_column(point: Any) -> int:
+    """Return the column of a tree-sitter ``Point`` (see :func:`point_row`)."""
+    try:
+        return point[1]
+    except TypeError:
+        return point.column
